@@ -17,6 +17,9 @@ claimed = {
  "C01": std("RTMP session: header generators and parsers agree for every timestamp < 2^31, 24-bit length, type and stream id (one query per path covers all boundary values); sequences of messages with symbolic contents, with a Set Chunk Size of symbolic size announced at forked positions, are read back identically under forked transport segmentations; simple handshake included."),
  "C02": std("RTMP reader vs an independent chunker written from the specification: forked header types 0-3, 1/2/3-byte basic headers with symbolic chunk stream ids, symbolic timestamps/deltas incl. extended ones, interleaved chunk streams with a symbolic chunk size; rule-breaking streams must be rejected. One recorded known finding (extended delta taken as absolute time)."),
  "C03": std("RTMP packets: every packet kind marshals to exactly Size() bytes and unmarshals to equal fields (all 65536 user-control event types and all uint32 control values in one symbolic run); over the wire the peer decodes the protocol's packet type and re-marshals the same payload; request/response histories with symbolic transaction ids are matched exactly once or rejected; typed waits skip earlier traffic."),
+ "C04": ("All schedules of the synchronisation operations of one writer and one reader goroutine on the same connection are explored as forked decisions of the symbolic execution (requests with symbolic transaction ids); on every schedule every response is decoded as its request's response type exactly once, with no 'no matched request' and no data race by vector-clock happens-before detection. Bounded schedule exploration is the right level: the defect class is an ordering between two sites that no single-threaded test reaches.",
+         "2 threads, 1-2 requests; context switches at visible operations only, races reported rather than explored. " + TRUST,
+         "bounded symbolic execution with exhaustive schedule forking (engine threads) + vector-clock race detection + SMT for the symbolic ids"),
  "C05": std("AMF0 trees (shapes forked, contents symbolic: all 2^64 number bit patterns incl. NaN payloads/-0, booleans, string bytes) marshal to exactly Size() bytes, unmarshal to an equal tree in key order and re-marshal to the same bytes; for every byte string up to the bound that decodes, Size() equals the bytes consumed as counted by an independent grammar-level decoder, including repeated/empty keys and trailing bytes."),
  "C06": std("Library encodings are decoded to the same value by a reference decoder written from the AMF0 specification and reference encodings by the library; all 256 markers: supported ones give the right type, all others an error. One recorded known finding (keyed strict arrays)."),
  "C20": std("Rate meters: a window samples iff a full window passed (integer/time logic by bit-vector queries), slower windows only after faster ones, rate bit-exactly equal to the IEEE evaluation of growth*1000/window_ms and proved finite and non-negative for every counter value (stall, backwards, wrap) in the FP theory; average and kbit/s scaling likewise; reading before Start panics."),
